@@ -28,7 +28,7 @@ from . import evidence as _evidence
 from . import findings as _findings
 
 NPROC = int(os.environ.get("MC_NPROC", "16"))
-STATE_TIMEOUT_S = int(os.environ.get("MC_STATE_TIMEOUT", "120"))
+STATE_TIMEOUT_S = int(os.environ.get("MC_STATE_TIMEOUT", "600"))
 REPLAY_ROOT = os.environ.get("MC_REPLAY_DIR", "replays")  # scratch runs against mutants use their own
 DOUBLE_RUN = 24  # number of leading states executed twice (determinism of the harness)
 
